@@ -45,6 +45,20 @@ func (l *Lowerer) call(ce *ast.CallExpr) ([]*Term, []types.Type) {
 			t, typ := l.tr(ce.Args[0])
 			l.oldRename = saved
 			return []*Term{t}, []types.Type{typ}
+		case "acq":
+			if !l.spec {
+				break
+			}
+			saved := l.oldRename
+			l.oldRename = func(name string) string {
+				if strings.Contains(name, "@") {
+					return name
+				}
+				return name + "@acq"
+			}
+			t, typ := l.tr(ce.Args[0])
+			l.oldRename = saved
+			return []*Term{t}, []types.Type{typ}
 		case "$forall", "$exists":
 			return l.quant(id.Name[1:], ce)
 		case "ite":
@@ -65,6 +79,16 @@ func (l *Lowerer) call(ce *ast.CallExpr) ([]*Term, []types.Type) {
 					return []*Term{l.p.reg.sArr(s)}, []types.Type{types.NewArray(et, 1<<62)}
 				}
 				return []*Term{l.p.reg.sOff(s)}, []types.Type{types.Typ[types.Int]}
+			}
+		case "lockheld":
+			if l.spec {
+				sel, ok := ast.Unparen(ce.Args[0]).(*ast.SelectorExpr)
+				if !ok {
+					panic("lockheld expects x.lockField")
+				}
+				pl := l.placeOfSelector(sel)
+				held := l.heapVar("F.$lock.held", "Bool")
+				return []*Term{Select(held, l.opaqueAddr(pl))}, []types.Type{types.Typ[types.Bool]}
 			}
 		case "isnil":
 			if l.spec {
@@ -284,6 +308,12 @@ func (l *Lowerer) methodRecv(f *ast.SelectorExpr) (*Term, types.Type, *types.Fun
 	}
 	if st, _ := structOf(baseTyp); st != nil && !isPointer(baseTyp) && !l.p.isOpaqueStruct(baseTyp) {
 		basePl = l.placeOfOrTemp(f.X)
+	} else if _, isSel := ast.Unparen(f.X).(*ast.SelectorExpr); isSel && l.p.isOpaqueStruct(baseTyp) && !isPointer(baseTyp) && !l.isPkgSel(ast.Unparen(f.X).(*ast.SelectorExpr)) {
+		// an opaque struct field (mutex, wait group, once): identified by its address
+		basePl = l.placeOfSelector(ast.Unparen(f.X).(*ast.SelectorExpr))
+		if basePl == nil {
+			base, _ = l.tr(f.X)
+		}
 	} else {
 		base, _ = l.tr(f.X)
 	}
@@ -836,6 +866,46 @@ func (l *Lowerer) callFunc(callee *types.Func, recv *Term, recvTyp types.Type, c
 	return ts, tys
 }
 
+// callSiteClauses: obligations the enclosing function's contract attaches to calls of `callee`.
+func (l *Lowerer) callSiteClauses(callee *types.Func, recv *Term, recvTyp types.Type, args []*Term, atys []types.Type, ce *ast.CallExpr) {
+	top := l.fr
+	for top.parent != nil {
+		top = top.parent
+	}
+	if top.contract == nil || top.contract.CallSites == nil || l.spec {
+		return
+	}
+	cls := top.contract.CallSites[callee.Name()]
+	if len(cls) == 0 {
+		return
+	}
+	sig := callee.Type().(*types.Signature)
+	env := map[string]envEntry{}
+	if sig.Recv() != nil && recv != nil {
+		env["$recv"] = envEntry{recv, recvTyp}
+		if n := sig.Recv().Name(); n != "" && n != "_" {
+			env["$"+n] = envEntry{recv, recvTyp}
+		}
+	}
+	for i := 0; i < sig.Params().Len() && i < len(args); i++ {
+		env[fmt.Sprintf("$arg%d", i)] = envEntry{args[i], atys[i]}
+		if n := sig.Params().At(i).Name(); n != "" && n != "_" {
+			env["$"+n] = envEntry{args[i], atys[i]}
+		}
+	}
+	for _, c := range cls {
+		savedPos := l.specPos
+		l.specPos = ce.Pos()
+		t := l.specTerm(c, env)
+		l.specPos = savedPos
+		lbl := callee.Name()
+		if c.Label != "" {
+			lbl += "." + c.Label
+		}
+		l.assertOb("callsite", lbl, "at every call of "+callee.Name()+": "+c.Src, ce, t, clausePropsOr(l.fr, c, l.curProps))
+	}
+}
+
 func (l *Lowerer) callFunc1(callee *types.Func, recv *Term, recvTyp types.Type, ce *ast.CallExpr) ([]*Term, []types.Type) {
 	sig := callee.Type().(*types.Signature)
 	fi := l.p.funcByObj[callee]
@@ -860,6 +930,7 @@ func (l *Lowerer) callFunc1(callee *types.Func, recv *Term, recvTyp types.Type, 
 		return l.freshResults(resTypes), resTypes
 	}
 	args, atys := l.evalArgs(ce, sig)
+	l.callSiteClauses(callee, recv, recvTyp, args, atys, ce)
 	if fi == nil {
 		return l.externalCall(callee, recv, recvTyp, args, atys, ce), resTypes
 	}
@@ -1640,14 +1711,17 @@ func (l *Lowerer) externalCall(callee *types.Func, recv *Term, recvTyp types.Typ
 		return []*Term{V(vv, "Int"), V(nv, "Int")}
 	case "encoding/binary.PutVarint", "encoding/binary.PutUvarint":
 		lv := l.slicePlace(ce.Args[0])
-		if lv == nil {
-			break
-		}
 		sz := "sz_uvarint"
 		if callee.Name() == "PutVarint" {
 			sz = "sz_varint"
 		}
 		n := App(sz, "Int", args[1])
+		if lv == nil {
+			// scratch buffer (e.g. a local array): only the length written matters
+			l.safety("index", "binary."+callee.Name()+" needs sz bytes: "+l.exprText(ce), ce, Le(n, r.sLen(args[0])))
+			l.note("T-stdlib: encoding/binary.PutVarint/PutUvarint return the encoded size sz_(u)varint(v)")
+			return []*Term{n}
+		}
 		d := lv.view
 		l.safety("index", "binary."+callee.Name()+" needs sz bytes: "+l.exprText(ce), ce, Le(n, r.sLen(d)))
 		// contents written: abstract (trusted inverse of Varint)
@@ -1659,9 +1733,17 @@ func (l *Lowerer) externalCall(callee *types.Func, recv *Term, recvTyp types.Typ
 		bv := &Term{Op: "bound", Name: fmt.Sprintf("pv!%d", l.quantN), Sort: "Int"}
 		inside := And(Le(r.sOff(d), bv), Lt(bv, Add(r.sOff(d), n)))
 		l.assume(&Term{Op: "forall", Sort: "Bool", Args: []*Term{bv, Implies(Not(inside), Eq(Select(nat, bv), Select(r.sArr(lv.whole), bv)))}})
-		dec := "dec." + strings.TrimPrefix(callee.Name(), "Put")
-		l.p.reg.Fun(dec, []string{as, "Int"}, "Int")
-		l.assume(Eq(App(dec, "Int", nat, r.sOff(d)), args[1]))
+		// the bytes written decode back (exact functions uv_len / uv_val of the prelude): canonical encoding
+		decoded := App("uv_val", "Int", nat, r.sOff(d))
+		if callee.Name() == "PutVarint" {
+			decoded = App("unzigzag", "Int", decoded)
+		}
+		l.assume(And(Eq(App("uv_len", "Int", nat, r.sOff(d)), n), Eq(decoded, args[1]),
+			Le(Select(nat, Add(r.sOff(d), IntLit(9))), Ite(Eq(n, IntLit(10)), IntLit(1), IntLit(255)))))
+		for k := int64(0); k < 10; k++ {
+			e := Select(nat, Add(r.sOff(d), IntLit(k)))
+			l.assume(Implies(Lt(IntLit(k), n), And(Le(IntLit(0), e), Le(e, IntLit(255)))))
+		}
 		w := lv.whole
 		l.store(lv.pl, r.sMk(w.Sort, nat, r.sOff(w), r.sLen(w), r.sCap(w), r.sNil(w)))
 		l.note("T-stdlib: encoding/binary.PutVarint/PutUvarint write exactly sz bytes that Varint/Uvarint decode back")
